@@ -7,6 +7,7 @@ error ends the evaluation of the operands after it) and of every lazy form.  The
 in `St.trace` is what the correspondence compares with the interpreter.
 -/
 import Anko.Model.Eval
+import Anko.Proofs.EvalMono
 
 set_option linter.unusedSectionVars false
 set_option linter.unusedSimpArgs false
@@ -141,5 +142,19 @@ theorem nilco_left_nil_runs_right (n : Nat) (l r : Expr) (s : St)
     (hl : (evalExpr n l s).err = none) (hn : isNilRV (evalExpr n l s).rv = true) :
     evalExpr (n + 1) (.nilco l r) s = evalExpr n r (evalExpr n l s) := by
   simp [evalExpr, hl, hn]
+
+/-! ### observable effects are never undone or repeated behind the program's back -/
+
+/-- The probe trace (the calls of host functions the script has made, with their arguments) only
+ever grows by appending: for every expression, statement and whole program, at every fuel, what
+was observed before is still there, in the same order, afterwards. -/
+theorem trace_is_append_only_expr (fuel : Nat) (e : Expr) (s : St) : s.trace.toList <+: (evalExpr fuel e s).trace.toList :=
+  ((mono_all fuel).evalExpr e s).2.2
+
+theorem trace_is_append_only_stmt (fuel : Nat) (st : Stmt) (s : St) : s.trace.toList <+: (execStmt fuel st s).trace.toList :=
+  ((mono_all fuel).execStmt st s).2.2
+
+theorem trace_is_append_only_program (fuel : Nat) (p : Stmt) (s : St) : s.trace.toList <+: (runProgram fuel p s).trace.toList :=
+  (mono_runProgram fuel p s).2.2
 
 end Anko.C07
